@@ -268,12 +268,33 @@ type PreCase struct {
 	Entry   string `json:"entry_point"`
 	How     string `json:"how"` // cancelled | deadline
 	Shape   Shape  `json:"shape"`
+	// Src: what stands at the path the call is given: "" the directory tree, link = a symbolic link to it (OS backend),
+	// file = a regular file, emptydir = an empty directory, missing = nothing
+	Src string `json:"source_is,omitempty"`
 }
 
 func checkPre(t ev.T, test string, c PreCase) {
 	ep := entryByName(c.Entry)
 	e := buildEnv(c.Backend, c.Shape)
 	defer e.box.Close()
+	if c.Src != "" {
+		real := e.src + "-real"
+		if err := e.box.Raw.Rename(e.src, real); err != nil {
+			t.Fatalf("HARNESS: %v", err)
+		}
+		var serr error
+		switch c.Src {
+		case "link":
+			serr = os.Symlink(real, e.src)
+		case "file":
+			serr = afero.WriteFile(e.box.Raw, e.src, []byte("a file"), 0o644)
+		case "emptydir":
+			serr = e.box.Raw.MkdirAll(e.src, 0o755)
+		}
+		if serr != nil {
+			t.Fatalf("HARNESS: %v", serr)
+		}
+	}
 	var ctx context.Context
 	var cancel context.CancelFunc
 	if c.How == "deadline" {
@@ -322,6 +343,10 @@ func TestAlreadyDone(t *testing.T) {
 	rapid.Check(t, func(rt *rapid.T) {
 		c := PreCase{Backend: rapid.SampledFrom([]string{"mem", "mem", "os"}).Draw(rt, "backend"), Entry: entries[rapid.IntRange(0, len(entries)-1).Draw(rt, "entry")].name,
 			How: rapid.SampledFrom([]string{"cancelled", "deadline"}).Draw(rt, "how"), Shape: Shape{Dirs: rapid.IntRange(1, 4).Draw(rt, "dirs"), Files: rapid.IntRange(1, 4).Draw(rt, "files"), BigKB: 64}}
+		c.Src = rapid.SampledFrom([]string{"", "", "link", "file", "emptydir", "missing"}).Draw(rt, "source-is")
+		if (c.Src == "link" && c.Backend != "os") || (c.Src == "missing" && c.Entry == "LsRecursiveFromOpenedDirectory") {
+			c.Src = ""
+		}
 		key, _ := json.Marshal(c)
 		ev.Case(string(key), true, "pre/"+c.Entry, c)
 		checkPre(rt, "TestAlreadyDone", c)
@@ -334,15 +359,23 @@ func TestAlreadyDoneAll(t *testing.T) {
 	for _, ep := range entries {
 		for _, how := range []string{"cancelled", "deadline"} {
 			for _, b := range []string{"mem", "os"} {
-				pc := PreCase{Backend: b, Entry: ep.name, How: how, Shape: Shape{Dirs: 3, Files: 3, BigKB: 64, Nested: 1}}
-				if os.Getenv("C09_LIST") != "" {
-					if ok, msg := ev.RunIsolated(func(it ev.T) { checkPre(it, "TestAlreadyDone", pc) }); !ok {
-						fmt.Println("PRE-FAIL", msg)
+				for _, src := range []string{"", "link", "file", "emptydir", "missing"} {
+					if src == "link" && b != "os" {
+						continue
 					}
-					continue
+					if src == "missing" && ep.name == "LsRecursiveFromOpenedDirectory" {
+						continue // there is nothing to open (the harness opens the directory before the call)
+					}
+					pc := PreCase{Backend: b, Entry: ep.name, How: how, Shape: Shape{Dirs: 3, Files: 3, BigKB: 64, Nested: 1}, Src: src}
+					if os.Getenv("C09_LIST") != "" {
+						if ok, msg := ev.RunIsolated(func(it ev.T) { checkPre(it, "TestAlreadyDone", pc) }); !ok {
+							fmt.Println("PRE-FAIL", src, b, msg)
+						}
+						continue
+					}
+					checkPre(t, "TestAlreadyDone", pc)
+					n++
 				}
-				checkPre(t, "TestAlreadyDone", pc)
-				n++
 			}
 		}
 	}
